@@ -1,6 +1,6 @@
 /-
 C12 — helper lemmas: the compile-time stage (`mkRatio`, `ratioDivide`, `commonTy`, `castCtx`, `pairCtx`)
-evaluates to the expected constants; integer facts about truncating division.
+evaluates to the expected constants; integer facts about truncating division; the scalar operators.
 -/
 import Mathlib.Data.Rat.Floor
 import Mathlib.Tactic.Ring
@@ -180,7 +180,10 @@ theorem mkRatio_pos (n d : Int) (hn : 0 < n) (hd : 0 < d) (hn' : n ≤ imax.max)
     mkRatio n d = .ok ⟨n / ((Int.gcd n d : Nat) : Int), d / ((Int.gcd n d : Nat) : Int)⟩ := by
   have hg := gcd_pos_int n d hn
   have hgn := gcd_le_left_int n d hn
+  have hd0 : (d == 0) = false := by simpa using (by omega : d ≠ 0)
   unfold mkRatio
+  rw [hd0]
+  simp only [Bool.false_eq_true, if_false]
   rw [gcd_imax n d (by omega) (by omega) hn' hd']
   have hs : sign n * sign d = 1 := by unfold sign; rw [if_neg (by omega), if_neg (by omega)]; rfl
   have ha1 : absImpl n = .ok n := by unfold absImpl; rw [if_pos (by omega)]
@@ -192,23 +195,95 @@ theorem mkRatio_pos (n d : Int) (hn : 0 < n) (hd : 0 < d) (hn' : n ≤ imax.max)
   simp only [ha1, ha2, hs, i1, i2, bind, Except.bind, cdiv_pos _ _ _ hg]
   rw [Int.tdiv_eq_ediv_of_nonneg (by omega), Int.tdiv_eq_ediv_of_nonneg (by omega)]
 
+/-- a positive number divided by one of its positive divisors: positive, not larger, and the division is exact -/
+theorem ediv_dvd_facts (n g : Int) (hn : 0 < n) (hg : 0 < g) (hd : g ∣ n) : 0 < n / g ∧ n / g ≤ n ∧ n / g * g = n :=
+  ⟨Int.ediv_pos_of_pos_of_dvd hn (by omega) hd, Int.ediv_le_self g (by omega), Int.ediv_mul_cancel hd⟩
+
+/-- `ratio<n, d>::type`: computing the members again from the reduced arguments changes nothing -/
+theorem ratioType_pos (n d : Int) (hn : 0 < n) (hd : 0 < d) (hn' : n ≤ imax.max) (hd' : d ≤ imax.max) :
+    ratioType n d = .ok ⟨n / ((Int.gcd n d : Nat) : Int), d / ((Int.gcd n d : Nat) : Int)⟩ := by
+  have hg := gcd_pos_int n d hn
+  obtain ⟨a1, a2, _⟩ := ediv_dvd_facts n _ hn hg (Int.gcd_dvd_left n d)
+  obtain ⟨b1, b2, _⟩ := ediv_dvd_facts d _ hd hg (Int.gcd_dvd_right n d)
+  have h1 : Int.gcd (n / ((Int.gcd n d : Nat) : Int)) (d / ((Int.gcd n d : Nat) : Int)) = 1 :=
+    Int.gcd_div_gcd_div_gcd (Int.gcd_pos_of_ne_zero_left _ (by omega))
+  unfold ratioType
+  rw [mkRatio_pos n d hn hd hn' hd']
+  simp only [bind, Except.bind]
+  rw [mkRatio_pos _ _ a1 b1 (by omega) (by omega), h1]
+  simp
+
 /-- numerator / denominator of `ratio_divide<p, q>` -/
 def cfN (p q : Ratio) : Int := (p.num * q.den) / ((Int.gcd (p.num * q.den) (p.den * q.num) : Nat) : Int)
 def cfD (p q : Ratio) : Int := (p.den * q.num) / ((Int.gcd (p.num * q.den) (p.den * q.num) : Nat) : Int)
 
+/-- cancelling a common positive factor first does not change the reduced fraction -/
+theorem ediv_gcd_scale (n d k : Int) (hk : 0 < k) :
+    (n * k) / ((Int.gcd (n * k) (d * k) : Nat) : Int) = n / ((Int.gcd n d : Nat) : Int) := by
+  rw [Int.gcd_mul_right]
+  have : ((Int.gcd n d * k.natAbs : Nat) : Int) = ((Int.gcd n d : Nat) : Int) * k := by
+    rw [Nat.cast_mul, Int.natAbs_of_nonneg (by omega)]
+  rw [this, Int.mul_ediv_mul_of_pos_left _ _ hk]
+
+/-- `ratio_divide<p, q>` (= `ratio_multiply_impl<p, ratio<q.den, q.num>>::type`, common factors cancelled before the
+    products are formed) is the quotient in lowest terms; no intermediate exceeds the unreduced products -/
 theorem ratioDivide_eq (p q : Ratio) (hp : PerOk p) (hq : PerOk q) (h : DivOk p q) :
     ratioDivide p q = .ok ⟨cfN p q, cfD p q⟩ := by
   obtain ⟨p1, p2, p3, p4⟩ := hp
   obtain ⟨q1, q2, q3, q4⟩ := hq
   obtain ⟨h1, h2⟩ := h
-  have hA : 0 < p.num * q.den := Int.mul_pos p1 q2
-  have hB : 0 < p.den * q.num := Int.mul_pos p2 q1
   have hmm := imax_max
+  -- ratio<q.den, q.num>
+  have hg := gcd_pos_int q.den q.num q2
+  obtain ⟨i1, i2, i3⟩ := ediv_dvd_facts q.den _ q2 hg (Int.gcd_dvd_left q.den q.num)
+  obtain ⟨j1, j2, j3⟩ := ediv_dvd_facts q.num _ q1 hg (Int.gcd_dvd_right q.den q.num)
+  have hq0 : (q.num == 0) = false := by simpa using (by omega : q.num ≠ 0)
   unfold ratioDivide
-  rw [imax_arith ((imax_inR _).mpr (by omega)), imax_arith ((imax_inR _).mpr (by omega))]
+  rw [hq0]
+  simp only [Bool.false_eq_true, if_false]
+  rw [mkRatio_pos q.den q.num q2 q1 q4 q3]
   simp only [bind, Except.bind]
-  rw [mkRatio_pos _ _ hA hB h1 h2]
-  rfl
+  generalize ((Int.gcd q.den q.num : Nat) : Int) = g at *
+  generalize hqd : q.den / g = qd at *
+  generalize hqn : q.num / g = qn at *
+  -- gcd1, gcd2 and the four quotients
+  have hg1 := gcd_pos_int p.num qn p1
+  have hg2 := gcd_pos_int qd p.den i1
+  obtain ⟨a1, a2, a3⟩ := ediv_dvd_facts p.num _ p1 hg1 (Int.gcd_dvd_left p.num qn)
+  obtain ⟨e1, e2, e3⟩ := ediv_dvd_facts qn _ j1 hg1 (Int.gcd_dvd_right p.num qn)
+  obtain ⟨b1, b2, b3⟩ := ediv_dvd_facts qd _ i1 hg2 (Int.gcd_dvd_left qd p.den)
+  obtain ⟨c1, c2, c3⟩ := ediv_dvd_facts p.den _ p2 hg2 (Int.gcd_dvd_right qd p.den)
+  unfold ratioMultiply
+  simp only
+  rw [gcd_imax p.num qn (by omega) (by omega) p3 (by omega), gcd_imax qd p.den (by omega) (by omega) (by omega) p4]
+  simp only [bind, Except.bind, cdiv_pos _ _ _ hg1, cdiv_pos _ _ _ hg2]
+  rw [Int.tdiv_eq_ediv_of_nonneg (by omega : 0 ≤ p.num), Int.tdiv_eq_ediv_of_nonneg (by omega : 0 ≤ qd),
+    Int.tdiv_eq_ediv_of_nonneg (by omega : 0 ≤ p.den), Int.tdiv_eq_ediv_of_nonneg (by omega : 0 ≤ qn)]
+  generalize ((Int.gcd p.num qn : Nat) : Int) = g1 at *
+  generalize ((Int.gcd qd p.den : Nat) : Int) = g2 at *
+  generalize ha : p.num / g1 = a at *
+  generalize hb : qd / g2 = b at *
+  generalize hc : p.den / g2 = c at *
+  generalize he : qn / g1 = e at *
+  -- the products are the unreduced products divided by k = g * g1 * g2
+  have hk : 0 < g * g1 * g2 := Int.mul_pos (Int.mul_pos hg hg1) hg2
+  have eA : p.num * q.den = (a * b) * (g * g1 * g2) := by rw [← a3, ← i3, ← b3]; ring
+  have eB : p.den * q.num = (c * e) * (g * g1 * g2) := by rw [← c3, ← j3, ← e3]; ring
+  have hab : 0 < a * b := Int.mul_pos a1 b1
+  have hce : 0 < c * e := Int.mul_pos c1 e1
+  have lab : a * b ≤ p.num * q.den := by
+    have : 1 * (a * b) ≤ (g * g1 * g2) * (a * b) := Int.mul_le_mul_of_nonneg_right (by omega) (by omega)
+    rw [eA]; linarith
+  have lce : c * e ≤ p.den * q.num := by
+    have : 1 * (c * e) ≤ (g * g1 * g2) * (c * e) := Int.mul_le_mul_of_nonneg_right (by omega) (by omega)
+    rw [eB]; linarith
+  rw [imax_arith ((imax_inR _).mpr (by omega)), imax_arith ((imax_inR _).mpr (by omega))]
+  simp only
+  rw [ratioType_pos _ _ hab hce (by omega) (by omega)]
+  unfold cfN cfD
+  rw [eA, eB, ediv_gcd_scale _ _ _ hk]
+  congr 2
+  rw [Int.gcd_comm (a * b * (g * g1 * g2)), ediv_gcd_scale _ _ _ hk, Int.gcd_comm]
 
 /-- cross-multiplied form of `cfN / cfD = (p.num * q.den) / (p.den * q.num)`; positivity; bounds -/
 theorem cf_facts (p q : Ratio) (hp : PerOk p) (hq : PerOk q) :
@@ -686,7 +761,8 @@ theorem floorCtx_eq (dst frm : DurTy) (h : CastTyOk dst frm) (hp : PairTyOk frm 
 
 theorem floorCore_spec (dst frm : DurTy) (h : CastTyOk dst frm) (hp : PairTyOk frm dst) (c : Int) (hin : CastIn dst frm c)
     (hcmp : PairIn frm dst c (Spec.cast frm.per.toRat dst.per.toRat c))
-    (hstep : dst.rep.inR (Spec.cast frm.per.toRat dst.per.toRat c + -1) = true) :
+    (hstep : Spec.val frm.per.toRat c / dst.per.toRat < ((Spec.cast frm.per.toRat dst.per.toRat c : Int) : ℚ) →
+      dst.rep.inR (Spec.cast frm.per.toRat dst.per.toRat c + -1) = true) :
     floorCore ⟨dst, castK dst frm, pairK frm dst⟩ c = .ok (Spec.floor frm.per.toRat dst.per.toRat c) := by
   have hQ := toRat_pos dst.per h.2.2.2.1
   have hcast := castCore_spec dst frm h c hin
@@ -700,7 +776,7 @@ theorem floorCore_spec (dst frm : DurTy) (h : CastTyOk dst frm) (hp : PairTyOk f
   · have hx' : Spec.val frm.per.toRat c / dst.per.toRat < ((Spec.trunc (Spec.val frm.per.toRat c / dst.per.toRat) : Int) : ℚ) := hx
     rw [if_pos hx']
     simp only [hx, decide_true, if_true]
-    rw [step1_eq dst h.1 _ _ hstep]
+    rw [step1_eq dst h.1 _ _ (hstep hx)]
     rfl
   · have hx' : ¬ Spec.val frm.per.toRat c / dst.per.toRat < ((Spec.trunc (Spec.val frm.per.toRat c / dst.per.toRat) : Int) : ℚ) := hx
     rw [if_neg hx']
@@ -795,5 +871,108 @@ theorem cmod_ok (t : ITy) (a b : Int) (hb : b ≠ 0) (hex : ¬ (a = t.min ∧ b 
       · have : (b == -1) = false := by simpa using h
         simp [this]
     rw [this]; simp
+
+/-! ## duration and a tick count -/
+
+/-- `CR op Rep2` with `CR = common_type_t<Rep1, Rep2>` is evaluated in `CR` -/
+theorem usual_common {a b : ITy} (ha : RepOk a) (hb : RepOk b) : ITy.usual (ITy.common a b) b = ITy.common a b := by
+  have pa := repOk_promote ha
+  have pb := repOk_promote hb
+  obtain ⟨hsa, ha1, ha2⟩ := ha
+  obtain ⟨hsb, hb1, hb2⟩ := hb
+  unfold ITy.common
+  by_cases hab : a = b
+  · subst hab
+    have : (a == a) = true := (ity_beq a a).mpr rfl
+    simp only [this, if_true]
+    unfold ITy.usual
+    simp only [pa, hsa, beq_self_eq_true, if_true, ge_iff_le, Nat.le_refl]
+  · have : (a == b) = false := (ity_beq_false a b).mpr hab
+    simp only [this, Bool.false_eq_true, if_false]
+    unfold ITy.usual
+    simp only [pa, pb, hsa, hsb, beq_self_eq_true, if_true]
+    by_cases hw : a.w ≥ b.w
+    · simp only [if_pos hw, pa, hsa, beq_self_eq_true, if_true]
+    · simp only [if_neg hw, pb, hsb, beq_self_eq_true, if_true, ge_iff_le, Nat.le_refl]
+
+theorem inR_sub_common_r {a b : ITy} (ha : RepOk a) (hb : RepOk b) (x : Int) (hx : b.inR x = true) :
+    (ITy.common a b).inR x = true := by
+  obtain ⟨⟨hs, h1, h2⟩, _, hwb⟩ := common_repOk ha hb
+  obtain ⟨hsb, hb1, hb2⟩ := hb
+  generalize ITy.common a b = c at *
+  rw [inR_iff] at hx ⊢
+  unfold ITy.min ITy.max at hx ⊢
+  simp only [hs, hsb, if_true] at hx ⊢
+  have hp : (2:Int) ^ (b.w - 1) ≤ 2 ^ (c.w - 1) := pow_mono _ _ (by omega)
+  omega
+
+/-- `|l % r| ≤ |l|`: the remainder is a value of the type of the dividend -/
+theorem tmod_inR (t : ITy) (l r : Int) (hl : t.inR l = true) : t.inR (Int.tmod l r) = true := by
+  rw [inR_iff] at hl ⊢
+  have hmm := min_max_zero t
+  rcases Int.le_total 0 l with h0 | h0
+  · have := Int.tmod_nonneg r h0
+    have : Int.tmod l r ≤ l := tmod_le_self l r h0
+    omega
+  · have h1 : Int.tmod (-l) r = -(Int.tmod l r) := Int.neg_tmod ..
+    have := Int.tmod_nonneg r (by omega : 0 ≤ -l)
+    have : Int.tmod (-l) r ≤ -l := tmod_le_self (-l) r (by omega)
+    omega
+
+/-- static preconditions of `duration<Rep1, Period> op Rep2` -/
+def ScalarTyOk (d : DurTy) (rs : ITy) : Prop := RepOk d.rep ∧ RepOk rs ∧ PerOk d.per ∧ DivOk d.per d.per
+instance (d : DurTy) (rs : ITy) : Decidable (ScalarTyOk d rs) := by unfold ScalarTyOk; infer_instance
+
+/-- the static context of `duration<Rep1, Period> op Rep2`: the conversion `CD(d)` keeps the period -/
+def scalarK (d : DurTy) (rs : ITy) : ScalarCtx :=
+  ⟨⟨ITy.common d.rep rs, d.per⟩, ⟨ITy.common d.rep rs, imax, ⟨1, 1⟩⟩, rs⟩
+
+theorem scalarCtx_eq (d : DurTy) (rs : ITy) (h : ScalarTyOk d rs) : scalarCtx d rs = .ok (scalarK d rs) := by
+  obtain ⟨hr, hs, hp, hdiv⟩ := h
+  have hc := (common_repOk hr hs).1
+  unfold scalarCtx
+  simp only
+  rw [castCtx_eq ⟨ITy.common d.rep rs, d.per⟩ d hc hr hp hp hdiv]
+  simp only [bind, Except.bind, (cf_self _ hp).1, (cf_self _ hp).2]
+  rfl
+
+/-- the three run-time facts every scalar operator starts from: `CD(d).count()` is the count, and both operands are
+    values of the type the operator is evaluated in -/
+theorem scalar_operands (d : DurTy) (rs : ITy) (h : ScalarTyOk d rs) (c s : Int) (hc : d.rep.inR c = true)
+    (hs : rs.inR s = true) :
+    convertCore (scalarK d rs).k c = .ok c ∧ ITy.usual (scalarK d rs).cd.rep (scalarK d rs).rs = ITy.common d.rep rs ∧
+      (ITy.common d.rep rs).conv c = c ∧ (ITy.common d.rep rs).conv s = s := by
+  obtain ⟨hr, hrs, hp, hdiv⟩ := h
+  have hcr := (common_repOk hr hrs).1
+  have hc' := inR_sub_common hr hrs c hc
+  have hs' := inR_sub_common_r hr hrs s hs
+  refine ⟨?_, usual_common hr hrs, conv_of_inR _ (repOk_w hcr) _ hc', conv_of_inR _ (repOk_w hcr) _ hs'⟩
+  have := convertCore_eq (ITy.common d.rep rs) hcr 1 (by decide) (by decide) c (repOk_sub hr c hc) (by rwa [Int.mul_one])
+  rwa [Int.mul_one] at this
+
+/-! ### the scalar operators in ℚ -/
+
+theorem spec_mulRep (p : ℚ) (hp : 0 < p) (c s : Int) : Spec.mulRep p c s = c * s := by
+  unfold Spec.mulRep Spec.inPeriod Spec.val
+  have : (c : ℚ) * p * (s : ℚ) / p = ((c * s : Int) : ℚ) := by push_cast; field_simp
+  rw [this, rat_floor_eq, Int.floor_intCast]
+
+theorem spec_divRep (p : ℚ) (hp : 0 < p) (c s : Int) (hs : s ≠ 0) : Spec.divRep p c s = Int.tdiv c s := by
+  unfold Spec.divRep Spec.val
+  rw [tdiv_trunc' c s hs]
+  congr 1
+  have : (s : ℚ) ≠ 0 := by exact_mod_cast hs
+  field_simp
+
+theorem spec_modRep (p : ℚ) (hp : 0 < p) (c s : Int) (hs : s ≠ 0) : Spec.modRep p c s = Int.tmod c s := by
+  unfold Spec.modRep
+  rw [spec_divRep p hp c s hs]
+  unfold Spec.inPeriod Spec.val
+  have hdef : Int.tmod c s = c - s * Int.tdiv c s := by
+    have := Int.tmod_add_mul_tdiv c s
+    omega
+  have : ((c : ℚ) * p - ((Int.tdiv c s : Int) : ℚ) * p * (s : ℚ)) / p = ((c - s * Int.tdiv c s : Int) : ℚ) := by
+    push_cast; field_simp
+  rw [this, rat_floor_eq, Int.floor_intCast, hdef]
 
 end Tetl.C12
